@@ -11,6 +11,7 @@ import (
 	"fmt"
 	"io"
 	"math/big"
+	"strings"
 	"sync"
 	"testing"
 
@@ -81,9 +82,48 @@ var (
 	ecdhClasses  = []string{"ecdh-uniform", "ecdh-lz1", "ecdh-n-2"}
 	sm9PrivKinds = []string{"sm9-signmaster", "sm9-signmaster-lz1", "sm9-encmaster", "sm9-encmaster-lz1", "sm9-signuser", "sm9-encuser"}
 	sm9PubKinds  = []string{"sm9-signmasterpub", "sm9-encmasterpub"}
-	rsaClasses   = []string{"rsa-1024", "rsa-2048"}
-	ecdsaClasses = []string{"p256-uniform", "p256-lz1", "p256-n-1", "p384-uniform", "p384-lz1"}
+	rsaClasses   = []string{"rsa-1024", "rsa-2048", "rsa-3072"}
+	ecdsaClasses = []string{"p256-uniform", "p256-lz1", "p256-n-1", "p384-uniform", "p384-lz1",
+		// P-224 (28-byte scalars) and P-521: 521 bits = 66 bytes, the top byte of a
+		// scalar or coordinate holds a single bit; lz1 = top byte zero (d < 2^512),
+		// top = 2^520 <= d < n
+		"p224-uniform", "p224-lz1", "p224-n-1", "p521-uniform", "p521-lz1", "p521-top", "p521-n-1"}
+	// deepClasses join the big cipher x KDF products only in the thorough tier
+	// (they are in every other sweep of the quick tier)
+	deepClasses = map[string]bool{"rsa-3072": true, "p224-lz1": true, "p224-n-1": true, "p521-n-1": true}
 )
+
+// productClasses are the key classes of the cipher x KDF product sweeps.
+func productClasses() []string {
+	var out []string
+	for _, c := range allPrivateClasses() {
+		if h.Thorough() || !deepClasses[c] {
+			out = append(out, c)
+		}
+	}
+	return out
+}
+
+// nistCurveOf maps a class / target name carrying p224 / p256 / p384 / p521 to
+// the curve.
+func nistCurveOf(name string) (elliptic.Curve, string, bool) {
+	switch {
+	case strings.Contains(name, "p224"):
+		return elliptic.P224(), "p224", true
+	case strings.Contains(name, "p256"):
+		return elliptic.P256(), "p256", true
+	case strings.Contains(name, "p384"):
+		return elliptic.P384(), "p384", true
+	case strings.Contains(name, "p521"):
+		return elliptic.P521(), "p521", true
+	}
+	return nil, "", false
+}
+
+func isNISTClass(class string) bool {
+	_, _, ok := nistCurveOf(class)
+	return ok && class[0] == 'p'
+}
 
 func allPrivateClasses() []string {
 	var out []string
@@ -122,8 +162,8 @@ func scalarFor(class string, seed uint64, max *big.Int, size int) *big.Int {
 		}
 		return new(big.Int).SetBytes(b)
 	case hasSuffix(class, "-top"):
-		// top bit set: [2^(8*size-1), max]
-		lo := new(big.Int).Lsh(one, uint(8*size-1))
+		// top bit of the order's bit length set: [2^(bitlen-1), max] (2^255.. for SM2, 2^520.. for P-521)
+		lo := new(big.Int).Lsh(one, uint(max.BitLen()-1))
 		span := new(big.Int).Sub(max, lo)
 		span.Add(span, one)
 		return new(big.Int).Add(lo, new(big.Int).Mod(raw, span))
@@ -228,11 +268,12 @@ func buildKey(class string, seed uint64) *keyInfo {
 	case class == "rsa-2048":
 		k := testkeys.RSA2048()
 		ki.priv, ki.pub = k, &k.PublicKey
-	case hasPrefix(class, "p256-"), hasPrefix(class, "p384-"):
-		curve, size := elliptic.P256(), 32
-		if hasPrefix(class, "p384-") {
-			curve, size = elliptic.P384(), 48
-		}
+	case class == "rsa-3072":
+		k := rsa3072()
+		ki.priv, ki.pub = k, &k.PublicKey
+	case isNISTClass(class):
+		curve, _, _ := nistCurveOf(class)
+		size := (curve.Params().N.BitLen() + 7) / 8
 		max := new(big.Int).Sub(curve.Params().N, one)
 		d := scalarFor(class, seed, max, size)
 		x, y := curve.ScalarBaseMult(d.FillBytes(make([]byte, size)))
@@ -278,6 +319,25 @@ func keySelfTest() error {
 	}
 	if x, _ := sm2BaseMul(ref.SM2N); x != nil {
 		return fmt.Errorf("key self-test: n*G is not the point at infinity")
+	}
+	for _, cl := range ecdsaClasses {
+		curve, _, _ := nistCurveOf(cl)
+		n := curve.Params().N
+		size := (n.BitLen() + 7) / 8
+		for seed := uint64(1); seed <= 3; seed++ {
+			d := scalarFor(cl, seed, new(big.Int).Sub(n, one), size)
+			b := d.FillBytes(make([]byte, size))
+			switch {
+			case d.Sign() <= 0 || d.Cmp(n) >= 0:
+				return fmt.Errorf("key self-test: %s: scalar %x out of [1,n-1]", cl, d)
+			case hasSuffix(cl, "-lz1") && (b[0] != 0 || b[1] == 0):
+				return fmt.Errorf("key self-test: %s: scalar %x does not have exactly one leading zero byte", cl, b)
+			case hasSuffix(cl, "-top") && d.BitLen() != n.BitLen():
+				return fmt.Errorf("key self-test: %s: scalar %x has %d bits", cl, d, d.BitLen())
+			case hasSuffix(cl, "-n-1") && new(big.Int).Add(d, one).Cmp(n) != 0:
+				return fmt.Errorf("key self-test: %s: scalar %x", cl, d)
+			}
+		}
 	}
 	k := makeKey("sm2-uniform", 7)
 	if err := sm2Consistent(k.priv.(*sm2.PrivateKey)); err != nil {
